@@ -17,7 +17,7 @@ Record slinfo := { p11 : bool;      (* message.protocol >= (1, 1) *)
                    nobody : bool }. (* server: method in (HEAD, GET, TRACE) *)
 Inductive slres := SlOk (i : slinfo) | SlErr (code : N) | SlEscape | SlMiss.
 Inductive hres := HOk | HErr (code : N) | HEscape | HMiss.
-Inductive dcres := DcOk (body : bytes) | DcErr (code : N) | DcEscape | DcMiss.
+Inductive dcres := DcOk (body : bytes) | DcErr (code : N) | DcDecodeError (* DecodeError / UnicodeDecodeError from the codec *) | DcEscape | DcMiss.
 Inductive r2047 := RText (truthy : bool) (is_chunked : bool) (cl : option Z) | RInvalid | REscape | RMiss.
 Inductive trres := TrOk (names : list bytes) | TrInvalid | TrEscape | TrMiss.
 
@@ -213,7 +213,7 @@ Fixpoint chunks (fuel : nat) (i : inflight) (b : bytes) : pres inflight :=
               let size := Z.to_N z in
               if N.of_nat (length rest) <? N.of_nat (length l) + size then Need i b
               else
-                let n := N.to_nat size in
+                let n := N.to_nat size in   (* size <= length rest here: never a large unary number *)
                 let i' := set_body i (i_body i ++ firstn n rest) in
                 let rest' := skipn n rest in
                 if size =? 0 then parse_trailers (set_trailer i' true) rest'
@@ -224,7 +224,7 @@ Fixpoint chunks (fuel : nat) (i : inflight) (b : bytes) : pres inflight :=
   end.
 
 Definition body_with_length (i : inflight) (len : N) (b : bytes) : pres inflight :=
-  let n := N.to_nat len in
+  let n := N.to_nat (N.min len (N.of_nat (length b))) in   (* b[:len]; the min keeps the unary number small *)
   let taken := firstn n b in
   let i' := set_len (set_body i (i_body i ++ taken)) (Some (len - N.of_nat (length taken))) in
   if N.of_nat (length taken) <? len then Need i' (skipn n b) else Done i' (skipn n b).
@@ -260,7 +260,7 @@ Definition on_body_complete (v411 : bool) (i : inflight) (b : bytes) : msg + err
   else
     let dec := match i_ce i with
                | Some ce => match c_decode C ce (i_body i) with
-                            | DcOk b' => inl b' | DcErr c => inr (EHttp c) | DcEscape => inr EEscape | DcMiss => inr EMiss
+                            | DcOk b' => inl b' | DcErr c => inr (EHttp c) | DcDecodeError => inr (EHttp 400) | DcEscape => inr EEscape | DcMiss => inr EMiss
                             end
                | None => inl (i_body i)
                end in
